@@ -337,4 +337,227 @@ theorem mon_split (pre post : List Ev) (e : Ev) :
     mon (pre ++ e :: post) = post.foldl Mon.step ((mon pre).step e) := by
   simp [mon_append]
 
+/-! frame facts, short reads, iteration count -/
+
+/-- components that user callbacks / API calls never touch -/
+def Same (s s' : St) : Prop :=
+  s'.readPartial = s.readPartial ∧ s'.kbuf = s.kbuf ∧ s'.nAlloc = s.nAlloc ∧ s'.ipc = s.ipc ∧ s'.oracle = s.oracle
+
+theorem same_doOp (s : St) (op : CbOp) : Same s (doOp s op) := by
+  cases op <;> simp only [doOp, readStop, readStart, closeH, emit, Same] <;> (repeat' split) <;> simp_all
+
+theorem same_runOps (ops : List CbOp) : ∀ s, Same s (runOps s ops) := by
+  induction ops with
+  | nil => intro s; simp [runOps, Same]
+  | cons o t ih =>
+    intro s
+    have h1 := same_doOp s o
+    have h2 := ih (doOp s o)
+    simp only [runOps, List.foldl_cons] at h2 ⊢
+    simp only [Same] at *
+    simp_all
+
+theorem same_callReadCb (u : User) (s : St) (n : Int) (buf : Option Nat) (b : List Byte) :
+    Same s (callReadCb u s n buf b) := by
+  have h := same_runOps (u.cbS s.nCb) (emit { s with nCb := s.nCb + 1 } (.readCb n buf b))
+  simpa [callReadCb, Same, emit] using h
+
+theorem skipEintr_mem (l : List Outcome) :
+    (∀ o, (skipEintr l).2.1 = some o → o ∈ l) ∧ (∀ o, o ∈ (skipEintr l).2.2 → o ∈ l) := by
+  induction l with
+  | nil => simp [skipEintr]
+  | cons a t ih =>
+    cases a <;> simp [skipEintr]
+    · intro o ho; exact Or.inr ho
+    · intro o ho; exact Or.inr ho
+    · exact ⟨fun o ho => Or.inr (ih.1 o ho), fun o ho => Or.inr (ih.2 o ho)⟩
+    · intro o ho; exact Or.inr ho
+
+
+def NoShort (K : Nat) (l : List Outcome) : Prop := ∀ o ∈ l, ∀ k, o = .ok k → K ≤ k
+
+theorem kfull_noshort (kbuf : List Byte) (shut : Bool) (sz k : Nat) (hk : sz ≤ k) (bs : List Byte)
+    (h : (kfull kbuf shut sz k).1 = .data bs) (hl : bs.length < sz) : (kfull kbuf shut sz k).2 = [] := by
+  unfold kfull at h ⊢
+  by_cases h0 : min k (min sz kbuf.length) = 0
+  · simp only [h0, if_true] at h; split at h <;> simp at h
+  · simp only [h0, if_false] at h ⊢
+    simp only [RRes.data.injEq] at h
+    subst h
+    rw [List.length_take] at hl
+    simp only [List.drop_eq_nil_iff]
+    omega
+
+theorem kread_noshort (kbuf : List Byte) (shut : Bool) (sz : Nat) (o : Option Outcome)
+    (ho : ∀ k, o = some (.ok k) → sz ≤ k) (bs : List Byte)
+    (h : (kread kbuf shut sz o).1 = .data bs) (hl : bs.length < sz) : (kread kbuf shut sz o).2 = [] := by
+  unfold kread at h ⊢
+  cases o with
+  | none => exact kfull_noshort _ _ _ _ (Nat.le_refl _) bs h hl
+  | some o =>
+    cases o with
+    | ok k => exact kfull_noshort _ _ _ _ (ho k rfl) bs h hl
+    | eagain => simp at h
+    | eintr => simp at h
+    | err e => simp only at h; split at h <;> simp at h
+
+theorem readRound_facts (u : User) (K : Nat) (hA : ∀ i, u.allocS i ≤ K) (s : St)
+    (hp : s.readPartial = false) (hO : NoShort K s.oracle) :
+    (readRound u s).1.nAlloc = s.nAlloc + 1 ∧ (readRound u s).1.ipc = s.ipc ∧
+    NoShort K (readRound u s).1.oracle ∧
+    ((readRound u s).2 = true → (readRound u s).1.readPartial = false) ∧
+    ((readRound u s).1.readPartial = true → (readRound u s).1.kbuf = [] ∧ s.ipc = false) := by
+  unfold readRound
+  simp only [emit]
+  by_cases hz : u.allocS s.nAlloc = 0
+  · simp only [hz, if_true]
+    have h := same_callReadCb u (emit { s with nAlloc := s.nAlloc + 1 } (.alloc s.nAlloc 0)) UV_ENOBUFS (some s.nAlloc) []
+    simp only [Same, emit] at h
+    simp_all
+  · simp only [hz, if_false]
+    have hm := skipEintr_mem s.oracle
+    have hO' : NoShort K (skipEintr s.oracle).2.2 := fun o ho k hk => hO o (hm.2 o ho) k hk
+    have ho : ∀ k, (skipEintr s.oracle).2.1 = some (.ok k) → u.allocS s.nAlloc ≤ k :=
+      fun k hk => Nat.le_trans (hA _) (hO _ (hm.1 _ hk) k rfl)
+    have hns := kread_noshort s.kbuf s.peerShut (u.allocS s.nAlloc) (skipEintr s.oracle).2.1 ho
+    revert hns
+    generalize kread s.kbuf s.peerShut (u.allocS s.nAlloc) (skipEintr s.oracle).2.1 = kr
+    obtain ⟨r, kb⟩ := kr
+    intro hns
+    cases r with
+    | eagain =>
+      simp only [afterRead]
+      split
+      · have h := same_callReadCb u { s with nAlloc := s.nAlloc + 1, trace := s.trace ++ [.alloc s.nAlloc (u.allocS s.nAlloc)], oracle := (skipEintr s.oracle).2.2, nSys := s.nSys + (skipEintr s.oracle).1, kbuf := kb, pollin := true } 0 (some s.nAlloc) []
+        simp only [Same] at h; simp_all
+      · have h := same_callReadCb u { s with nAlloc := s.nAlloc + 1, trace := s.trace ++ [.alloc s.nAlloc (u.allocS s.nAlloc)], oracle := (skipEintr s.oracle).2.2, nSys := s.nSys + (skipEintr s.oracle).1, kbuf := kb } 0 (some s.nAlloc) []
+        simp only [Same] at h; simp_all
+    | err e =>
+      simp only [afterRead]
+      have h := same_callReadCb u { s with nAlloc := s.nAlloc + 1, trace := s.trace ++ [.alloc s.nAlloc (u.allocS s.nAlloc)], oracle := (skipEintr s.oracle).2.2, nSys := s.nSys + (skipEintr s.oracle).1, kbuf := kb, readable := false, writable := false } (-(e:Int)) (some s.nAlloc) []
+      simp only [Same] at h
+      split <;> simp_all
+    | eof =>
+      simp only [afterRead, streamEof]
+      have h := same_callReadCb u { s with nAlloc := s.nAlloc + 1, trace := s.trace ++ [.alloc s.nAlloc (u.allocS s.nAlloc)], oracle := (skipEintr s.oracle).2.2, nSys := s.nSys + (skipEintr s.oracle).1, kbuf := kb, readEof := true, reading := false, pollin := false } UV_EOF (some s.nAlloc) []
+      simp only [Same] at h
+      simp_all
+    | data bs =>
+      simp only [afterRead]
+      have h := same_callReadCb u { s with nAlloc := s.nAlloc + 1, trace := s.trace ++ [.alloc s.nAlloc (u.allocS s.nAlloc)], oracle := (skipEintr s.oracle).2.2, nSys := s.nSys + (skipEintr s.oracle).1, kbuf := kb } bs.length (some s.nAlloc) bs
+      simp only [Same] at h
+      have hns' := hns bs rfl
+      split
+      · rename_i hsh
+        simp at hsh
+        simp_all
+      · simp_all
+
+
+theorem readLoop_facts (u : User) (K : Nat) (hA : ∀ i, u.allocS i ≤ K) :
+    ∀ (count : Nat) (s : St), s.readPartial = false → NoShort K s.oracle →
+      (readLoop u count s).nAlloc ≤ s.nAlloc + count ∧ (readLoop u count s).ipc = s.ipc ∧
+      ((readLoop u count s).readPartial = true → (readLoop u count s).kbuf = [] ∧ s.ipc = false) := by
+  intro count
+  induction count with
+  | zero => intro s hp _; simp [readLoop, hp]
+  | succ c ih =>
+    intro s hp hO
+    unfold readLoop
+    by_cases hc : (!(s.hasCb && s.reading)) = true
+    · simp only [hc, if_true]; simp [hp]
+    · simp only [hc]
+      obtain ⟨f1, f2, f3, f4, f5⟩ := readRound_facts u K hA s hp hO
+      simp only [Bool.false_eq_true, if_false]
+      split
+      · rename_i hcont
+        obtain ⟨g1, g2, g3⟩ := ih _ (f4 hcont) f3
+        refine ⟨by omega, by rw [g2, f2], ?_⟩
+        intro hh; have := g3 hh; rw [f2] at this; exact this
+      · exact ⟨by omega, f2, f5⟩
+
+
+theorem partial_implies_drained (u : User) (K : Nat) (hA : ∀ i, u.allocS i ≤ K) (s : St)
+    (hO : NoShort K s.oracle) :
+    (uvRead u s).readPartial = true → (uvRead u s).kbuf = [] ∧ s.ipc = false := by
+  have h := (readLoop_facts u K hA 32 { s with readPartial := false } rfl hO).2.2
+  simpa [uvRead] using h
+
+theorem afterRead_nAlloc (u : User) (s : St) (id sz : Nat) (r : RRes) :
+    (afterRead u s id sz r).1.nAlloc = s.nAlloc := by
+  cases r with
+  | eagain =>
+    simp only [afterRead]
+    split
+    · have h := same_callReadCb u { s with pollin := true } 0 (some id) []
+      simp only [Same] at h; simp_all
+    · have h := same_callReadCb u s 0 (some id) []
+      simp only [Same] at h; simp_all
+  | err e =>
+    simp only [afterRead]
+    have h := same_callReadCb u { s with readable := false, writable := false } (-(e:Int)) (some id) []
+    simp only [Same] at h
+    split <;> simp_all
+  | eof =>
+    simp only [afterRead, streamEof]
+    have h := same_callReadCb u { s with readEof := true, reading := false, pollin := false } UV_EOF (some id) []
+    simp only [Same] at h
+    simp_all
+  | data bs =>
+    simp only [afterRead]
+    have h := same_callReadCb u s bs.length (some id) bs
+    simp only [Same] at h
+    split <;> simp_all
+
+theorem readRound_nAlloc (u : User) (s : St) : (readRound u s).1.nAlloc = s.nAlloc + 1 := by
+  unfold readRound
+  simp only [emit]
+  split
+  · have h := same_callReadCb u { s with nAlloc := s.nAlloc + 1, trace := s.trace ++ [.alloc s.nAlloc (u.allocS s.nAlloc)] } UV_ENOBUFS (some s.nAlloc) []
+    simp only [Same] at h; simp_all
+  · rw [afterRead_nAlloc]
+
+theorem readLoop_nAlloc (u : User) : ∀ (count : Nat) (s : St), (readLoop u count s).nAlloc ≤ s.nAlloc + count := by
+  intro count
+  induction count with
+  | zero => intro s; simp [readLoop]
+  | succ c ih =>
+    intro s
+    unfold readLoop
+    split
+    · omega
+    · have h1 := readRound_nAlloc u s
+      simp only
+      split
+      · have := ih (readRound u s).1; omega
+      · omega
+
+theorem streamIo_nAlloc (u : User) (s : St) (ev : PollEv) : (streamIo u s ev).nAlloc ≤ s.nAlloc + 32 := by
+  unfold streamIo
+  have h1 : (if (ev.inn || ev.err || ev.hup) = true then uvRead u s else s).nAlloc ≤ s.nAlloc + 32 := by
+    split
+    · have := readLoop_nAlloc u 32 { s with readPartial := false }
+      simpa [uvRead] using this
+    · omega
+  revert h1
+  generalize (if (ev.inn || ev.err || ev.hup) = true then uvRead u s else s) = s1
+  intro h1
+  simp only
+  split
+  · exact h1
+  · split
+    · simp only [streamEof]
+      have h := same_callReadCb u { s1 with readEof := true, reading := false, pollin := false } UV_EOF none []
+      simp only [Same] at h
+      simp_all
+    · exact h1
+
+theorem poll_nAlloc (u : User) (s : St) (ev : PollEv) (reads : List Outcome) :
+    (stepOp u s (.poll ev reads)).nAlloc ≤ s.nAlloc + 32 := by
+  simp only [stepOp, runClosing, ioPoll]
+  have h := fun e => streamIo_nAlloc u { s with oracle := reads } e
+  simp only at h
+  repeat' split
+  all_goals first | (simp only [emit]; first | exact h _ | omega) | exact h _ | omega
+
 end UvModel.StreamR
